@@ -239,6 +239,7 @@ func NewWorld(seed uint64, p Profile, idx *TxIndex) *World {
 		// (tombstoned) signing info travels in the genesis state
 		t := w.Eds[p.GenesisVals]
 		g.Tombstoned = append(g.Tombstoned, t)
+		g.OmitInnerAddr = r.Bool()
 		w.Tomb[t.AddrHex()] = true
 	}
 	w.Cfg = g
@@ -529,6 +530,8 @@ func (w *World) extActions() (begin, end []ExtAction) {
 		}
 		if w.R.Chance(4) {
 			ad = []byte{} // a downstream module awarding "nobody" (the zero-length address)
+		} else if w.R.Chance(5) {
+			ad = w.R.Bytes(40)[:[]int{32, 21, 19, 33}[w.R.Intn(4)]] // an address that is not 20 bytes long
 		}
 		amt := w.R.PickI64(0, 1, 1000, 999999, 1000000, 123456789)
 		act := ExtAction{Kind: "award", Phase: "end", Addr: ad, Amount: amt}
